@@ -77,6 +77,7 @@ type gcase struct {
 	NegEdgeFrom []bool        `json:"negedgefrom"`
 	AnyNegEdge  bool          `json:"anynegedge"`
 	Sink        []bool        `json:"sink"`
+	ZCyc        bool          `json:"zcyc"` // the graph has a zero-weight cycle
 	SP          [][][][]int64 `json:"sp"`
 	Simple      [][][]pathRec `json:"simple"`
 	Uniq        [][]int       `json:"uniq"`
@@ -197,6 +198,28 @@ func (k *checker) checkOne(routine string, s, t int, p []graph.Node, w float64) 
 			k.fail(routine, "path", "%d->%d returned path %v (model ids %v) is not a shortest simple path of the spec %v", s, t, p, mp, k.c.SP[s-1][t-1])
 		}
 	}
+}
+
+// checkOneAlt is checkOne for the two methods that walk random predecessors and cut zero-weight
+// cycles (ShortestAlts.To, AllShortest.Between): a non-shortest-path answer on a graph with a
+// zero-weight cycle gets its own signature (the stale-index cut in graph/path/shortest.go).
+func (k *checker) checkOneAlt(routine string, s, t int, p []graph.Node, w float64) {
+	want := k.want(s, t)
+	if k.c.ZCyc && want.fin() && sameW(w, want) {
+		if mp, ok := k.models(p); !ok || !k.inSP(s, t, mp) {
+			k.fail(routine, "zero-cycle-cut-nonwalk", "%d->%d returned path %v (model ids %v) is not a shortest simple path of the spec %v", s, t, p, mp, k.c.SP[s-1][t-1])
+			return
+		}
+	}
+	k.checkOne(routine, s, t, p, w)
+}
+
+// reps: how often a randomised query is repeated.
+func (k *checker) reps() int {
+	if k.c.ZCyc {
+		return 25
+	}
+	return 3
 }
 
 // checkAll judges an all-shortest-paths answer.
@@ -464,9 +487,9 @@ func (k *checker) checkAlts(routine string, s int, sa path.ShortestAlts, tg tgra
 		if w := sa.WeightTo(tid); !sameW(w, k.want(s, t)) {
 			k.fail(routine, "weight", "WeightTo %d->%d = %v, spec %v", s, t, w, k.want(s, t))
 		}
-		for rep := 0; rep < 3; rep++ {
+		for rep := 0; rep < k.reps(); rep++ {
 			p, w, u := sa.To(tid)
-			k.checkOne(routine, s, t, p, w)
+			k.checkOneAlt(routine, s, t, p, w)
 			if k.want(s, t).fin() {
 				k.checkUnique(routine, s, t, u)
 			}
@@ -500,7 +523,7 @@ func (k *checker) allPairs() {
 					k.fail(routine, "weight", "Weight %d->%d = %v, spec %v", s, t, w, want)
 					continue
 				}
-				for rep := 0; rep < 3; rep++ {
+				for rep := 0; rep < k.reps(); rep++ {
 					p, w, u := ap.Between(sid, tid)
 					if want.ninf() && s == t && len(p) == 1 && w == 0 {
 						// a closed walk through a negative cycle: the spec's walk weight is -Inf, the
@@ -514,7 +537,7 @@ func (k *checker) allPairs() {
 						}
 						continue
 					}
-					k.checkOne(routine, s, t, p, w)
+					k.checkOneAlt(routine, s, t, p, w)
 					if want.fin() {
 						k.checkUnique(routine, s, t, u)
 					}
